@@ -113,5 +113,32 @@ fire("prog-mutex", ["C18"], "interior mutability", E("src/vm.rs", "    pub body:
 fire("expand-check-le", ["C12"], "captures_len", E("src/expand.rs", "            } else if num < regex.captures_len() {", "            } else if num <= regex.captures_len() {"))
 fire("expand-vec-drift", ["C12"], "write", E("src/expand.rs", "            Step::GroupNum(num) => {\n                if let Some(m) = captures.get(num) {\n                    Ok(dst.extend(m.as_str().as_bytes()))", "            Step::GroupNum(num) => {\n                if let Some(m) = captures.get(num + 1) {\n                    Ok(dst.extend(m.as_str().as_bytes()))"))
 fire("expand-skip-two", ["C12"], "doubled", E("src/expand.rs", "                    f(Step::Char(self.sub_char))?;\n                    1\n", "                    f(Step::Char(self.sub_char))?;\n                    2\n"))
+# ---------------- behaviour-preserving refactorings (all checks of the listed properties must stay silent)
+ALLP = ["C01","C02","C03","C05","C06","C07","C08","C09","C10","C11","C12","C13","C14","C15","C16","C17","C18","C19","C20"]
+def rx(id, props, *edits):
+    V.append({"id": id, "must_stay_silent": props, "edits": [dict(file=f, regex=r, repl=t, min=m) for (f, r, t, m) in edits]})
+rx("ref-rename-mat", ["C05","C08","C09","C11"], ("src/lib.rs", r"\bmat\b", "found", 10))
+rx("ref-rename-vm-locals", ["C01","C03","C05","C07","C13","C15","C20"], ("src/vm.rs", r"\brepcount\b", "times", 10), ("src/vm.rs", r"\bix_end\b", "after", 4))
+rx("ref-rename-replace-locals", ["C11","C05"], ("src/lib.rs", r"\blet mut new = String::with_capacity", "let mut out = String::with_capacity", 2), ("src/lib.rs", r"\bnew\.push_str", "out.push_str", 5), ("src/lib.rs", r"Ok\(Cow::Owned\(new\)\)", "Ok(Cow::Owned(out))", 2), ("src/lib.rs", r"rep\.replace_append\(&cap, &mut new\)", "rep.replace_append(&cap, &mut out)", 1))
+silent("ref-flag-match-guard", ["C08","C09","C11","C05"],
+       E("src/lib.rs", "        let option_flags = if let Some(last_match) = self.last_match {\n            if self.last_end > last_match {\n                OPTION_SKIPPED_EMPTY_MATCH\n            } else {\n                0\n            }\n        } else {\n            0\n        };",
+         "        let option_flags = match self.last_match {\n            Some(last_match) if self.last_end > last_match => OPTION_SKIPPED_EMPTY_MATCH,\n            _ => 0,\n        };"))
+silent("ref-push-early-return", ["C07","C20","C02","C05"],
+       E("src/vm.rs", "        if self.stack.len() < self.max_stack {\n            let nsave = self.nsave;\n            self.stack.push(Branch { pc, ix, nsave });\n            self.nsave = 0;\n            self.trace_stack(\"push\");\n            Ok(())\n        } else {\n            Err(Error::RuntimeError(RuntimeError::StackOverflow))\n        }",
+         "        if self.stack.len() >= self.max_stack {\n            return Err(Error::RuntimeError(RuntimeError::StackOverflow));\n        }\n        let nsave = self.nsave;\n        self.stack.push(Branch { pc, ix, nsave });\n        self.nsave = 0;\n        self.trace_stack(\"push\");\n        Ok(())"))
+silent("ref-concat-stmt-order", ["C13","C07","C03","C01","C02","C16"],
+       E("src/analyze.rs", "                    const_size &= child_info.const_size;\n                    hard |= child_info.hard;", "                    hard |= child_info.hard;\n                    const_size &= child_info.const_size;"))
+silent("ref-is-special-matches", ["C17","C03","C06"],
+       E("src/lib.rs", "    match c {\n        '\\\\' | '.' | '+' | '*' | '?' | '(' | ')' | '|' | '[' | ']' | '{' | '}' | '^' | '$'\n        | '#' => true,\n        _ => false,\n    }",
+         "    matches!(\n        c,\n        '\\\\' | '.' | '+' | '*' | '?' | '(' | ')' | '|' | '[' | ']' | '{' | '}' | '^' | '$' | '#'\n    )"))
+silent("ref-next-utf8-iflet", ["C08","C05","C09"],
+       E("src/lib.rs", "    let b = match text.as_bytes().get(i) {\n        None => return i + 1,\n        Some(&b) => b,\n    };\n    i + codepoint_len(b)",
+         "    if let Some(&b) = text.as_bytes().get(i) {\n        i + codepoint_len(b)\n    } else {\n        i + 1\n    }"))
+silent("ref-get-reorder", ["C02","C16","C05","C09"],
+       E("src/lib.rs", "                let lo = saves[slot];\n                if lo == usize::MAX {\n                    return None;\n                }\n                let hi = saves[slot + 1];",
+         "                let lo = saves[slot];\n                let hi = saves[slot + 1];\n                if lo == usize::MAX {\n                    return None;\n                }"))
+silent("ref-split-len-first", ["C10","C05"],
+       E("src/lib.rs", "        match self.matches.next() {\n            None => {\n                let len = self.target.len();\n                if self.next_start > len {", "        let len = self.target.len();\n        match self.matches.next() {\n            None => {\n                if self.next_start > len {"))
+silent("ref-doc-comments", ALLP, E("src/vm.rs", "// push a backtrack branch", "// push a backtrack branch (records pc, ix and the size of the current delta)"), E("src/lib.rs", "/// A compiled regular expression.", "/// A compiled regular expression.\n///\n/// Cheap to clone."))
 json.dump({"variants": V}, open(os.path.join(os.path.dirname(os.path.abspath(__file__)), "variants.json"), "w"), indent=1)
 print(len(V), "variants;", sum(1 for v in V if "must_fire" in v), "must fire,", sum(1 for v in V if "must_stay_silent" in v), "must stay silent")
